@@ -382,6 +382,13 @@ VARIANTS = [
 ALL_PROPS = ("C01", "C02", "C03", "C04", "C05", "C06", "C07", "C08", "C09", "C10", "C11", "C12", "C13", "C14", "C16", "C18", "C19", "C20")
 VARIANTS += [
     V("twin: whole package reformatted, comments dropped (ast.unparse)", ALL_PROPS, "", "core.py", "", "", expect="silent", transform=("reformat",)),
+    V("twin: rename by_ -> codes_ in groupby_reduce (sixth-wave rules)", ("C19", "C11", "C05", "C07", "C02"), "", "core.py", "", "", expect="silent", transform=("rename", "groupby_reduce", "by_", "codes_")),
+    V("twin: rename axis_ -> axes_ in groupby_reduce", ("C08", "C02", "C19"), "", "core.py", "", "", expect="silent", transform=("rename", "groupby_reduce", "axis_", "axes_")),
+    V("twin: rename finalized -> out in _finalize_results", ("C05", "C11", "C02"), "", "core.py", "", "", expect="silent", transform=("rename", "_finalize_results", "finalized", "out")),
+    V("twin: rename actual_sizes -> nvalid in quantile_", ("C18", "C01"), "", "aggregate_flox.py", "", "", expect="silent", transform=("rename", "quantile_", "actual_sizes", "nvalid")),
+    V("twin: rename bins -> edges in _factorize_single", ("C07", "C05"), "", "core.py", "", "", expect="silent", transform=("rename", "_factorize_single", "bins", "edges")),
+    V("twin: rename chunks_cohorts -> cmap in find_group_cohorts", ("C19", "C09"), "", "core.py", "", "", expect="silent", transform=("rename", "find_group_cohorts", "chunks_cohorts", "cmap")),
+    V("twin: rename reindex_ -> strategy in _validate_reindex", ("C19",), "", "core.py", "", "", expect="silent", transform=("rename", "_validate_reindex", "reindex_", "strategy")),
     V("twin: rename result -> res_ in groupby_reduce", ("C16", "C12", "C05", "C08"), "", "core.py", "", "", expect="silent", transform=("rename", "groupby_reduce", "result", "res_")),
     V("twin: rename groups_ -> grps in groupby_reduce", ("C16", "C12"), "", "core.py", "", "", expect="silent", transform=("rename", "groupby_reduce", "groups_", "grps")),
     V("twin: rename by_ -> codes_ in groupby_reduce", ("C08", "C12", "C16"), "", "core.py", "", "", expect="silent", transform=("rename", "groupby_reduce", "by_", "codes_")),
